@@ -435,11 +435,12 @@ def sync_conc(run, prefixes):
     vlib.require_tlc_ok(res, "SyncConc.tla")
     run.add_tlc("SyncConc.tla (gossip x Head() x sync loop at yield-point granularity: HeadMonotone, SubjectiveCoversStore, NoSpuriousErr, "
                 "WrapMonotone, LocalHeadMonotone, liveness Reached)", res)
-    for cfg in ("SyncConcOld.cfg", "SyncConcRecheck.cfg"):
+    for cfg, inv in (("SyncConcOld.cfg", "SubjectiveCoversStoreAtRest"), ("SyncConcRecheck.cfg", "SubjectiveCoversStoreAtRest"),
+                     ("SyncConcOrder.cfg", "HeadMonotone")):     # the two reads of localHead() in the other order
         bad = vlib.tlc(run.pid, "syncconc_" + cfg[:-4], "SyncConc", cfg, workers=8, timeout=1200)
-        if bad.violated != "SubjectiveCoversStoreAtRest":
+        if bad.violated != inv:
             raise vlib.Inconclusive("SyncConc.tla self-test: %s was not refuted (%s)" % (cfg, bad.error or bad.violated))
-    run.cov["syncconc_selftests_refuted"] = 2
+    run.cov["syncconc_selftests_refuted"] = 3
     judge(run, [{"id": 0, "from_tlc": True}], "TestStalePending", "SyncConcTrace", prefixes, shards=1, pkg="synch", drift_prefixes=("IMPL_",))
 
 
